@@ -91,6 +91,12 @@ func (x *Exec) crcTerm(st *State, s *SliceV, n *Term) *Term {
 				continue
 			}
 			seen[l.id] = true
+			// one instance per (snapshot pair, length) and path
+			mark := fmt.Sprintf("crcinst:%d:%d:%d", sn.id, o.id, l.id)
+			if _, done := st.ghost[mark]; done {
+				continue
+			}
+			st.ghost[mark] = tb.True()
 			k := tb.Fresh(fmt.Sprintf("crc.k%d_%d", sn.id, o.id), BV(64))
 			diff := tb.And(tb.BVCmp("bvsle", tb.BVi(64, 0), k), tb.BVCmp("bvslt", k, l),
 				tb.Not(tb.Eq(x.Select(sn.c, tb.BVBin("bvadd", sn.off, k)), x.Select(o.c, tb.BVBin("bvadd", o.off, k)))))
